@@ -359,14 +359,17 @@ def part_c(item):
 
 def part_d(_item):
     res = {'counters': {'cases': 0}, 'violations': []}
-    lens = [0, 1, 2, 5]
-    offs = [0.0, 0.25, -1.5]
-    incs = [1.0, 0.001, 2.5e-7, 3.0]
-    starts = [(3660000000, 0), (3660000000, 2 ** 63), (-5, 2 ** 62), (0, 0)]
-    for n in lens:
-        for off in offs:
-            for inc in incs:
-                for st in starts:
+    lens = [0, 1, 2, 3, 5, 6]
+    offs = [0.0, 0.25, -1.5, 2.5]
+    incs = [1.0, 0.001, 2.5e-7, 3.0, 0.1]
+    # start times incl. years ~2500 and ~1600: outside datetime64[ns], inside every coarser unit
+    starts = [(3660000000, 0), (3660000000, 2 ** 63), (-5, 2 ** 62), (0, 0), (18800000000, 2 ** 62), (-9590000000, 2 ** 61)]
+    combos = [(n, off, inc, st) for n in lens for off in offs for inc in incs for st in starts]
+    combos += [(33, 2.5, 0.1, starts[0]), (7, 2.5, 0.1, starts[1]), (1000, 0.0, 1e-6, starts[0]), (1000, 0.25, 0.1, starts[3])]
+    for n, off, inc, st in combos:
+        if True:
+            if True:
+                if True:
                     for raw in (False, True):
                         props = [['wf_start_offset', 'DoubleFloat', struct.pack('<d', off).hex()],
                                  ['wf_increment', 'DoubleFloat', struct.pack('<d', inc).hex()],
@@ -394,9 +397,17 @@ def part_d(_item):
                             if abs(tt[i] - e) > 1e-12 * max(1.0, abs(e)):
                                 bad('relative', e, float(tt[i]))
                                 break
+                        # the array handed out belongs to the caller: changing it must not change what the next call returns
+                        tt *= 1000.0
+                        tt += 7.0
+                        r3 = H.guarded(ch.time_track)
+                        res['counters']['cases'] += 1
+                        if r3[0] != 'ok' or len(r3[1]) != n or any(abs(r3[1][i] - (off + i * inc)) > 1e-12 * max(1.0, abs(off + i * inc)) for i in range(n)):
+                            bad('not-repeatable', 'the same track again after the caller modified the first one', repr(r3)[:120])
+                            continue
                         for acc in ('s', 'ms', 'us', 'ns'):
-                            if acc == 'ns' and st[0] < 0:
-                                pass
+                            if acc == 'ns' and abs(st[0]) > 9 * 10 ** 9:
+                                continue     # not representable at this resolution
                             ra = H.guarded(ch.time_track, True, acc)
                             res['counters']['cases'] += 1
                             if ra[0] != 'ok':
